@@ -1394,11 +1394,26 @@ func (f *framing) ruleCRCGate(rule string) {
 				continue
 			}
 			ia, ok := ld.X.(*ssa.IndexAddr)
-			if !ok || ia.X != ssa.Value(frame) {
+			if !ok {
+				continue
+			}
+			// the element of the frame parameter, possibly through a sub-slice frame[lo:]
+			base, idx := ia.X, f.A.Lin(ia.Index)
+			for {
+				sl, isSl := base.(*ssa.Slice)
+				if !isSl {
+					break
+				}
+				if sl.Low != nil {
+					idx = idx.Add(f.A.Lin(sl.Low))
+				}
+				base = sl.X
+			}
+			if base != ssa.Value(frame) {
 				continue
 			}
 			off := map[string]int64{"Hi": -3, "Mi": -2, "Lo": -1}[part]
-			if f.A.Lin(ia.Index).Equal(f.A.LenOf(frame).AddConst(off)) {
+			if idx.Equal(f.A.LenOf(frame).AddConst(off)) {
 				got[part] = true
 			}
 		}
